@@ -157,7 +157,8 @@ Cols(q, db) ==
       [] q.op = "extend" -> Cols(q.src, db) \cup Range(q.cols)
       [] q.op = "summarize" -> (IF q.whole THEN Cols(q.src, db) ELSE Range(q.by)) \cup Range(q.cols)
       [] q.op \in {"join", "leftjoin", "times", "union"} -> Cols(q.l, db) \cup Cols(q.r, db)
-      [] q.op \in {"semijoin", "intersect", "minus"} -> Cols(q.l, db)
+      [] q.op \in {"semijoin", "minus"} -> Cols(q.l, db)
+      [] q.op = "intersect" -> Cols(q.l, db) \cap Cols(q.r, db)
 
 RECURSIVE SumOn(_, _)
 SumOn(G, on) ==
@@ -225,8 +226,18 @@ Denote(q, db) ==
       [] q.op = "union" ->
             LET U == Cols(q.l, db) \cup Cols(q.r, db)
             IN {Pad(r, U) : r \in Denote(q.l, db)} \cup {Pad(r, U) : r \in Denote(q.r, db)}
-      [] q.op = "intersect" -> Denote(q.l, db) \cap Denote(q.r, db)
-      [] q.op = "minus" -> Denote(q.l, db) \ Denote(q.r, db)
+      \* union, intersect and minus compare ALL columns of both sources; a column one source
+      \* does not have counts as "" (the documented use is sources with the same columns, where
+      \* this is plain set intersection / difference)
+      [] q.op = "intersect" ->
+            LET U == Cols(q.l, db) \cup Cols(q.r, db)
+                C == Cols(q.l, db) \cap Cols(q.r, db)
+                R == {Pad(r, U) : r \in Denote(q.r, db)}
+            IN {Restrict(r, C) : r \in {x \in Denote(q.l, db) : Pad(x, U) \in R}}
+      [] q.op = "minus" ->
+            LET U == Cols(q.l, db) \cup Cols(q.r, db)
+                R == {Pad(r, U) : r \in Denote(q.r, db)}
+            IN {r \in Denote(q.l, db) : Pad(r, U) \notin R}
 
 \* every expression the query evaluates stays inside the documented semantics
 RECURSIVE WellDef(_, _)
